@@ -15,5 +15,5 @@ SYSROOT="$(rustc +nightly --print sysroot)"
 cd "$REPO"
 LD_LIBRARY_PATH="$SYSROOT/lib" MIRX_OUT="$OUT" CARGO_NET_OFFLINE=true \
 RUSTFLAGS="-Zmir-opt-level=0 -Awarnings" RUSTC_WORKSPACE_WRAPPER="$DRV" CARGO_TARGET_DIR="$T" \
-  cargo +nightly check --offline -q -p indextree $PF "$@" >"$OUT/cargo.log" 2>&1 || { cat "$OUT/cargo.log" >&2; exit 4; }
-[ -s "$OUT/indextree.json" ] || { echo "mirx: no facts written" >&2; cat "$OUT/cargo.log" >&2; exit 5; }
+  cargo +nightly check --offline -q -p "${MIRX_PKG:-indextree}" $PF "$@" >"$OUT/cargo.log" 2>&1 || { cat "$OUT/cargo.log" >&2; exit 4; }
+[ -s "$OUT/${MIRX_MAIN:-indextree}.json" ] || { echo "mirx: no facts written" >&2; cat "$OUT/cargo.log" >&2; exit 5; }
